@@ -82,6 +82,7 @@ class Gen:
         self.t = {}          # tuple slot -> dict(ty, data=[literals])  (heap Tuples: harness-only operations)
         self.lines = []
         self.keep = KeepGen(rng, self.emit)
+        self.nest = NestGen(rng, self.emit)
     # values
     def ival(self):
         r = self.r; x = r.random()
@@ -114,7 +115,8 @@ class Gen:
             if d is None: return self.kill()
             k = r.choice(['val', 'val', 'array', 'array', 'list', 'table', 'tree'])
             if k == 'val':
-                ty = r.choice('IS'); v = self.val(ty); self.s[d] = dict(kind='val', ty=ty, data=v); self.emit('nv', d, v)
+                ty = r.choice('IS'); v = self.val(ty); self.s[d] = dict(kind='val', ty=ty, data=v)
+                self.emit(r.choice(['nv', 'nv', 'nv', 'nv', 'nvr', 'nvo']), d, v)       # new / new_raw / new_root
             elif k in ('array', 'list'):
                 ty = r.choice('IS'); n = r.choice([0, 0, 1, 2, 3, 5, 8, 20]); vs = [self.val(ty) for _ in range(n)]
                 self.s[d] = dict(kind=k, ty=ty, data=list(vs)); self.emit('na' if k == 'array' else 'nl', d, ty, *vs)
@@ -215,6 +217,8 @@ class Gen:
             if x is None: return
             o = self.s[x]; v = self.val(o['ty']); o['data'] = v; self.emit('vset', x, v)
         elif op == 'tuple': self.tuple_op()
+        elif op == 'edit': self.edit_op()
+        elif op == 'nested': self.nest.step()
         elif op == 'keep': self.keep.step()
         elif op == 'probe': self.probe_op()
         elif op == 'ring': self.ring_op()
@@ -253,6 +257,88 @@ class Gen:
                 c = self.pick(lambda v: seq(v) and v['ty'] == 'I')
                 if c is not None: self.emit('map', c, r.randrange(-5, 6))
             else: self.emit('gc')
+    # in-place edits of String / Int objects of every allocation class: the handle's own object (new / new_raw / new_root / copy),
+    # elements embedded in Array / List (by get and by iteration), values and keys embedded in Table / Tree
+    def edit_op(self, target=None):
+        r = self.r
+        seq = lambda v: v['kind'] in ('array', 'list') and v['data']
+        mp = lambda v: v['kind'] in ('table', 'tree') and v['data']
+        kind = target or r.choices(['self', 'at', 'it', 'val', 'key'], [3, 5, 2, 4, 2])[0]
+        if kind == 'self':
+            x = self.pick(lambda v: v['kind'] == 'val' and (v['ty'] == 'S' or r.random() < 0.2))
+            if x is None: return
+            o = self.s[x]; cur = o['data']; sel = ['self']
+            put = lambda nv: o.__setitem__('data', nv)
+        elif kind in ('at', 'it'):
+            x = self.pick(lambda v: seq(v) and (v['ty'] == 'S' or r.random() < 0.15))
+            if x is None: return
+            o = self.s[x]; L = len(o['data'])
+            i = r.randrange(-L, L) if kind == 'at' else r.randrange(0, L)
+            cur = o['data'][i]; sel = [kind, i]
+            put = lambda nv: o['data'].__setitem__(i, nv)
+        else:
+            x = self.pick(lambda v: mp(v) and ((v['vt'] if kind == 'val' else v['ty']) == 'S' or r.random() < 0.2))
+            if x is None: return
+            o = self.s[x]; k = r.choice(list(o['data']))
+            cur = o['data'][k] if kind == 'val' else k; sel = [kind, k]
+            put = (lambda nv: o['data'].__setitem__(k, nv)) if kind == 'val' else (lambda nv: None)
+        if cur[0] == 'i':
+            nv = cur if kind == 'key' else f'i{self.ival()}'
+            self.emit('ed', x, *sel, 'asg', nv); put(nv); return
+        txt = cur[1:]; L = len(txt)
+        small = lambda: ''.join(r.choice('abXY01_') for _ in range(r.randrange(0, 5)))
+        if kind == 'key':          # only edits that leave the value as it is
+            e = r.choice([['cat', 's'], ['app', 's'], ['res', L], ['asg', cur], ['fmt', L, 's'], ['rem', 's'], ['look', cur], ['res', r.randrange(L, 31)]])
+            self.emit('ed', x, *sel, *e); return
+        w = r.random()
+        if w < 0.22:
+            t = small()
+            if L + len(t) > 30: t = ''
+            e = [r.choice(['cat', 'app']), 's' + t]; nv = 's' + txt + t
+        elif w < 0.40:
+            n = r.choice([0, L, r.randrange(0, 31), r.randrange(0, L + 1)])
+            e = ['res', n]; nv = 's' + (txt[:n] if n <= L else txt)
+        elif w < 0.55:
+            t = self.sval(); e = ['asg', 's' + t]; nv = 's' + t
+        elif w < 0.72:
+            p_ = r.randrange(0, L + 1); t = small()
+            if p_ + len(t) > 30: t = ''
+            e = ['fmt', p_, 's' + t]; nv = 's' + txt[:p_] + t
+        elif w < 0.86:
+            if L and r.random() < 0.8:
+                a = r.randrange(0, L); b = r.randrange(a, min(L, a + 4) + 1); t = txt[a:b]
+            else: t = ''
+            j = txt.find(t)
+            e = ['rem', 's' + t]; nv = 's' + txt[:j] + txt[j + len(t):]
+        else:
+            t = self.sval(); e = ['look', 's' + t]; nv = 's' + t
+        self.emit('ed', x, *sel, *e); put(nv)
+    def edit_scenario(self, i):
+        """a String object of each way of coming into being (new / new_raw / new_root / copy), a String Array or List, a Table or Tree with
+        String keys and values: every selector used at least once, then everything read back"""
+        r = self.r
+        mk = ['nv', 'nvr', 'nvo'][i % 3]
+        d = self.free_slot()
+        if d is None: return
+        v = self.val('S'); self.s[d] = dict(kind='val', ty='S', data=v); self.emit(mk, d, v)
+        c = self.free_slot()
+        if c is not None and r.random() < 0.5:
+            self.s[c] = dict(kind='val', ty='S', data=v); self.emit('copy', c, d)
+        q = self.free_slot()
+        if q is None: return
+        k = ['array', 'list'][i % 2]; vs = [self.val('S') for _ in range(r.randrange(2, 7))]
+        self.s[q] = dict(kind=k, ty='S', data=list(vs)); self.emit('na' if k == 'array' else 'nl', q, 'S', *vs)
+        m = self.free_slot()
+        if m is None: return
+        mk2 = ['table', 'tree'][(i // 2) % 2]
+        self.s[m] = dict(kind=mk2, ty='S', vt='S', data={}); self.emit('nt' if mk2 == 'table' else 'nr', m, 'S', 'S')
+        for _ in range(r.randrange(2, 6)):
+            kk = self.val('S'); vv = self.val('S'); self.s[m]['data'][kk] = vv; self.emit('mset', m, kk, vv)
+        only = {d: None, q: None, m: None}
+        saved = self.s; self.s = {x: saved[x] for x in (d, q, m)}
+        for t in ('self', 'at', 'it', 'val', 'key') * 2: self.edit_op(target=t)
+        self.s = saved
+        self.emit('items', q); self.emit('items', m); self.emit('len', d)
     def probe_op(self, cold=False):
         """method-cache probe: queries in a random order on one of three probe types (cold: every query kind, permuted)"""
         r = self.r; t = r.randrange(3)
@@ -318,7 +404,9 @@ class Gen:
         any_ = self.pick(lambda v: True)
         sq = self.pick(lambda v: v['kind'] in ('array', 'list'))
         mp = self.pick(lambda v: v['kind'] in ('table', 'tree'))
-        if k == 0: self.emit('get', dead, 0)
+        if k == 0 and r.random() < 0.5 and sq is not None:
+            self.emit('ed', sq, r.choice(['at', 'it']), len(self.s[sq]['data']) + r.randrange(0, 2), r.choice(['cat', 'rem']), 'sq')
+        elif k == 0: self.emit('get', dead, 0)
         elif k == 1 and sq is not None: self.emit('get', sq, len(self.s[sq]['data']) + r.randrange(0, 3))
         elif k == 2 and sq is not None: self.emit('popat', sq, -len(self.s[sq]['data']) - 1)
         elif k == 3 and sq is not None: self.emit('push', sq, self.val('S' if self.s[sq]['ty'] == 'I' else 'I'))
@@ -330,9 +418,94 @@ class Gen:
         elif k == 9 and sq is not None: self.emit('resize', sq, len(self.s[sq]['data']) + 1)
         elif k == 10 and sq is not None: self.emit('concat', sq, sq)
         elif k == 11 and mp is not None: self.emit('sort', mp)
+        elif k == 8 and mp is not None and self.s[mp]['data']:
+            kk = r.choice(list(self.s[mp]['data']))
+            self.emit('ed', mp, 'key', kk, 'cat', 'sx') if kk[0] == 's' else self.emit('ed', mp, 'val', kk, 'res', 31)
         elif k == 9: self.emit('tget', r.randrange(MAXT), 300)
         elif k == 10: self.emit('tpush', r.randrange(MAXT), dead)
         else: self.emit('del', dead)
+
+# ------------------------------------------------------------------------------------------------ nested holders
+MAXN = 8
+XMAXE = 12
+XMAXI = 24
+class NestGen:
+    """containers whose elements are containers (Array / List of Int) or Tuples (of built-in Type objects, none twice), all embedded in
+    the outer container's storage; every edit goes through get(outer, key).  Transcript-only (T lines, compared across builds)."""
+    def __init__(self, rng, emit):
+        self.r = rng; self.emit = emit
+        self.h = {}        # slot -> dict(outer, inner, keys=[...], items={key: [...]})   (sequences: keys are 0..n-1 implicitly)
+    def seq(self, o): return o['outer'] in 'al'
+    def val(self, o, cur):
+        if o['inner'] == 'U':
+            c = [i for i in range(10) if i not in cur]
+            return self.r.choice(c) if c else None
+        return self.r.randrange(-50, 50)
+    def step(self):
+        r = self.r; live = list(self.h); x = r.random()
+        if not live or x < 0.06:
+            fr = [i for i in range(MAXN) if i not in self.h]
+            if not fr: return self.kill(r.choice(live))
+            n = r.choice(fr); o = dict(outer=r.choice('altr'), inner=r.choice('ALU'), keys=[], items=[])
+            self.h[n] = o; self.emit('xnew', n, o['outer'], o['inner'])
+            for _ in range(r.randrange(1, 4)): self.add(n)
+            return
+        n = r.choice(live); o = self.h[n]
+        if x < 0.16 or not o['items']: return self.add(n)
+        p = r.randrange(len(o['items'])); k = p if self.seq(o) else o['keys'][p]; cur = o['items'][p]; m = len(cur)
+        if x < 0.42:
+            v = self.val(o, cur)
+            if v is None or m >= XMAXI: return
+            cur.append(v); self.emit('xpush', n, k, v)
+        elif x < 0.50 and m: cur.pop(); self.emit('xpop', n, k)
+        elif x < 0.58 and m:
+            j = r.randrange(-m, m); cur.pop(j); self.emit('xpopat', n, k, j)
+        elif x < 0.66 and m:
+            j = r.randrange(-m, m); v = self.val(o, cur)
+            if v is None: return
+            cur[j] = v; self.emit('xset', n, k, j, v)
+        elif x < 0.74:
+            vs = []
+            for _ in range(r.randrange(0, 4)):
+                v = self.val(o, cur + vs)
+                if v is not None: vs.append(v)
+            if m + len(vs) > XMAXI: return
+            cur.extend(vs); self.emit('xcat', n, k, *vs)
+        elif x < 0.79 and m:
+            q = r.randrange(0, m); del cur[q:]; self.emit('xres', n, k, q)
+        elif x < 0.86 and m: self.emit('xget', n, k, r.randrange(-m, m))
+        elif x < 0.93: self.emit('xshow', n)
+        elif x < 0.97:
+            del o['items'][p]
+            if not self.seq(o): del o['keys'][p]
+            self.emit('xrem', n, k)
+        else: self.kill(n)
+    def add(self, n):
+        o = self.h[n]; r = self.r
+        if len(o['items']) >= XMAXE: return
+        if self.seq(o):
+            k = r.randrange(0, len(o['items']) + 1) if r.random() < 0.3 else len(o['items'])
+            o['items'].insert(k, [])
+        else:
+            k = None
+            while k is None or k in o['keys']:
+                k = r.randrange(-20, 60) if r.random() < 0.7 else r.randrange(0, 40) * 55      # keys colliding in small tables
+            o['keys'].append(k); o['items'].append([])
+        self.emit('xadd', n, k)
+    def kill(self, n):
+        del self.h[n]; self.emit(self.r.choice(['xdel', 'xdel', 'xdrop']), n)
+    def scenario(self, outer, inner):
+        fr = [i for i in range(MAXN) if i not in self.h]
+        if not fr: return
+        n = fr[0]; o = dict(outer=outer, inner=inner, keys=[], items=[])
+        self.h[n] = o; self.emit('xnew', n, outer, inner)
+        for _ in range(self.r.randrange(2, 6)): self.add(n)
+        saved = self.h; self.h = {n: o}
+        for _ in range(self.r.randrange(15, 40)): self.step()
+        if n in self.h: self.emit('xshow', n)
+        saved.update(self.h)
+        if n not in self.h: saved.pop(n, None)
+        self.h = saved
 
 # ------------------------------------------------------------------------------------------------ keep programs
 MAXH = 8
@@ -450,13 +623,14 @@ class KeepGen:
         if r.random() < 0.6: self.kill(h)
 
 PROFILES = {
-    'mixed':  dict(probe=3, ring=1, new=10, kill=6, push=14, pop=8, read=12, set=5, sort=3, mset=12, mread=9, mrem=5, copy=4, concat=2, resize=1, cmp=4, vset=2, exc=2, tonly=8, tuple=8),
-    'seq':    dict(probe=1, ring=1, new=6, kill=3, push=30, pop=16, read=14, set=8, sort=6, copy=3, concat=4, resize=2, cmp=4, tonly=6, exc=1),
-    'map':    dict(probe=1, ring=1, new=5, kill=2, mset=40, mread=20, mrem=18, copy=3, tonly=2, exc=1),
-    'churn':  dict(probe=3, ring=4, new=30, kill=26, copy=12, push=6, mset=6, read=4, mread=4, vset=4, tonly=6, exc=2, tuple=14, _drop=0.6),   # allocation pressure: collector at work
-    'views':  dict(probe=8, ring=1, new=8, kill=3, push=14, pop=4, tonly=50, read=6, vset=4, exc=6, cmp=4),
-    'tuples': dict(probe=2, ring=2, new=10, kill=4, vset=6, tuple=60, tonly=4, exc=2, copy=3, _drop=0.3),   # heap Tuples whose items only the Tuple references
-    'keep':   dict(probe=1, ring=1, new=8, kill=4, push=4, mset=4, read=2, mread=2, copy=2, tonly=2, keep=70, _drop=0.5),   # containers as the sole path to managed objects
+    'mixed':  dict(probe=3, ring=1, new=10, kill=6, push=14, pop=8, read=12, set=5, sort=3, mset=12, mread=9, mrem=5, copy=4, concat=2, resize=1, cmp=4, vset=2, exc=2, tonly=8, tuple=8, edit=10, nested=4),
+    'seq':    dict(probe=1, ring=1, new=6, kill=3, push=30, pop=16, read=14, set=8, sort=6, copy=3, concat=4, resize=2, cmp=4, tonly=6, exc=1, edit=8),
+    'map':    dict(probe=1, ring=1, new=5, kill=2, mset=40, mread=20, mrem=18, copy=3, tonly=2, exc=1, edit=10),
+    'churn':  dict(probe=3, ring=4, new=30, kill=26, copy=12, push=6, mset=6, read=4, mread=4, vset=4, tonly=6, exc=2, tuple=14, edit=6, nested=4, _drop=0.6),   # allocation pressure: collector at work
+    'views':  dict(probe=8, ring=1, new=8, kill=3, push=14, pop=4, tonly=50, read=6, vset=4, exc=6, cmp=4, edit=4),
+    'tuples': dict(probe=2, ring=2, new=10, kill=4, vset=6, tuple=60, tonly=4, exc=2, copy=3, nested=8, _drop=0.3),   # heap Tuples whose items only the Tuple references
+    'keep':   dict(probe=1, ring=1, new=8, kill=4, push=4, mset=4, read=2, mread=2, copy=2, tonly=2, keep=70, edit=2, _drop=0.5),   # containers as the sole path to managed objects
+    'edits':  dict(probe=1, ring=1, new=12, kill=4, push=8, pop=3, read=4, set=2, sort=1, mset=12, mread=4, mrem=2, copy=4, concat=1, tonly=3, exc=1, edit=60, nested=14, _drop=0.3),   # in-place edits on every allocation class
 }
 
 class C18(Spec):
@@ -528,6 +702,9 @@ class C18(Spec):
             # objects under allocation pressure in every run); the `keep` profile goes on mixing them at random
             g.keep.scenario(KINDS[i % len(KINDS)])
             if prof == 'keep': g.keep.scenario(rng.choice('tk'))
+            # one directed edit scenario per case: a String container of each family, every selector applied at once; and one nested holder
+            g.edit_scenario(i)
+            g.nest.scenario('altr'[i % 4], 'ALU'[(i // 4) % 3])
             for _ in range(length): g.step()
             c = Case(f'{prof}{i}b{boost}', g.lines)
             cs.append(c); self._cases[c.name] = c
